@@ -56,6 +56,8 @@ type cfgService struct {
 }
 
 type cfgCase struct {
+	LoadEnv  map[string]string `json:"loadEnv,omitempty"` // the LoadConfig-from-environment check instead of a document
+	Environ  []string          `json:"environ,omitempty"` // the environment-parsing check instead of a document
 	Services []cfgService      `json:"services"`
 	Cluster  string            `json:"cluster"`
 	Vars     map[string]string `json:"vars"`
@@ -184,7 +186,74 @@ func subst(s string, vars map[string]string) string {
 	return s
 }
 
+// cfgEnv: process-environment entries → template variables (incl. <service>_signing_key, the per-upstream HMAC key)
+func cfgEnv(c cfgCase) M {
+	got := proxy.VerifParseEnvironment(c.Environ)
+	return M{"kind": "env", "environ": hxs(c.Environ), "got": func() M {
+		o := M{}
+		for k, v := range got {
+			o[hx(k)] = hx(v)
+		}
+		return o
+	}(), "lowerKeys": func() M {
+		o := M{}
+		for _, e := range c.Environ {
+			k := e
+			if i := strings.Index(e, "="); i >= 0 {
+				k = e[:i]
+			}
+			o[hx(k)] = hx(strings.ToLower(k))
+		}
+		return o
+	}(), "raw": c}
+}
+
+// cfgLoadEnv: proxy.LoadConfig() with the given variables in the process environment (the deployment's way in):
+// either it fails, or what it loaded is what was stated.
+func cfgLoadEnv(c cfgCase) M {
+	keys := []string{}
+	for k := range c.LoadEnv {
+		keys = append(keys, k)
+	}
+	sort.Strings(keys)
+	for _, k := range keys {
+		os.Setenv(k, c.LoadEnv[k])
+	}
+	defer func() {
+		for _, k := range keys {
+			os.Unsetenv(k)
+		}
+	}()
+	out := M{}
+	func() {
+		defer func() {
+			if r := recover(); r != nil {
+				out["panic"] = fmt.Sprint(r)
+			}
+		}()
+		conf, err := proxy.LoadConfig()
+		out["loaded"] = err == nil
+		if err == nil {
+			out["cluster"] = conf.UpstreamConfigs.Cluster
+			g := conf.UpstreamConfigs.DefaultConfig.AllowedGroups
+			if g == nil {
+				g = []string{}
+			}
+			out["defaultGroups"] = g
+		} else {
+			out["error"] = err.Error()
+		}
+	}()
+	return M{"kind": "loadenv", "env": c.LoadEnv, "out": out, "raw": c}
+}
+
 func cfgRun(c cfgCase) M {
+	if c.LoadEnv != nil {
+		return cfgLoadEnv(c)
+	}
+	if c.Environ != nil {
+		return cfgEnv(c)
+	}
 	f, err := os.CreateTemp("", "verif-upstreams-*.yml")
 	if err != nil {
 		panic(err)
@@ -308,6 +377,14 @@ func init() {
 			emit(w.Raw)
 			return
 		}
+		emit(cfgCase{Environ: []string{"SSO_CONFIG_APP_SIGNING_KEY=sha256:c2hhcmVkLXNlY3JldA==", "SSO_CONFIG_API_SIGNING_KEY=sha1:a=b=c", "SSO_CONFIG_PLAIN=v",
+			"SSO_CONFIG_EMPTY=", "SSO_CONFIG_MiXeD_Case=Value=With=Equals", "OTHER=x", "SSO_CONFIG_=novar", "PATH=/bin", "SSO_CONFIG_TRAIL=x="}})
+		emit(cfgCase{Environ: []string{}})
+		for _, v := range []string{"prod", "dc1", "true", "false", "t", "F", "True", "1", "0", "10", "blue-green", "yes"} {
+			emit(cfgCase{LoadEnv: map[string]string{"UPSTREAM_CLUSTER": v}})
+			emit(cfgCase{LoadEnv: map[string]string{"UPSTREAM_CLUSTER": "prod", "UPSTREAM_DEFAULT_GROUPS": v}})
+		}
+		emit(cfgCase{LoadEnv: map[string]string{"UPSTREAM_CLUSTER": "prod", "UPSTREAM_DEFAULT_GROUPS": "eng,true,ops"}})
 		O := func(f func(o *cfgOpts)) *cfgOpts { o := &cfgOpts{}; f(o); return o }
 		base := cfgRoute{From: "app.x.io", To: "app.internal", Options: O(func(o *cfgOpts) { o.Groups = []string{"admins"}; o.SkipAuthRegex = []string{"^/health$"} })}
 		prelude := []cfgCase{
@@ -391,6 +468,15 @@ func init() {
 				r.Type = "fancy"
 			}
 			return r
+		}
+		envKeys := []string{"SSO_CONFIG_A", "SSO_CONFIG_app_signing_key", "SSO_CONFIG_B_C", "HOME", "SSO_CONFIGX", "SSO_CONFIG_"}
+		envVals := []string{"v", "", "a=b", "=lead", "trail=", "a==b", "sha256:abc==", "x y"}
+		for k := 0; k < n/20; k++ {
+			var env []string
+			for i := 0; i < 1+rng.Intn(5); i++ {
+				env = append(env, envKeys[rng.Intn(len(envKeys))]+"="+envVals[rng.Intn(len(envVals))])
+			}
+			emit(cfgCase{Environ: env})
 		}
 		for k := 0; k < n; k++ {
 			c := cfgCase{Cluster: pick([]string{"prod", "prod", "staging", "default"}), Vars: map[string]string{"cluster": "prod"}}
